@@ -447,7 +447,11 @@ def run(c):
         # ---------------------------------------------------------- 2. the observed environment fed to the model
         corr = in_process_correspondence(c, vdriver, vmodel, docs, bits, work, quick)
         evaluations += corr['evaluations']
-        corr_fail += corr['failures']
+        for fmsg in [x for x in corr['failures'] if x.startswith('HISTORY-DEPENDENT')]:
+            viol.append(('output-depends-on-process-history', {'kind': 'oracle', 'class': 'output-depends-on-process-history', 'what': fmsg,
+                         'expected': 'the text a back-end writes for a document is the same whatever the process transformed before',
+                         'replay_cmd': 'vdriver dettr lines of the documents in order (see harness/vd_determinism.cpp): the same-shape pairs pa0,pb0,pa1,pb1 six times in one process, then each alone'}))
+        corr_fail += [x for x in corr['failures'] if not x.startswith('HISTORY-DEPENDENT')]
         c.notes['in_process_correspondence'] = {k: v for k, v in corr.items() if k not in ('failures',)}
 
         # ---------------------------------------------------------- 3. interpreter traces
